@@ -493,18 +493,24 @@ def check_c14(tier):
                     "rawdash": "__editable__.%s-1.0" % pkgname}[c["pth"]]
             with open(os.path.join(sp, stem + ".pth"), "w") as fh:
                 fh.write("# comment\nimport nothing\n%s\n" % src_root)
-        if c["target"] == "module":
+        onward = ""
+        if c["target"] != "missing":
             onward = {"none": "", "star_rel": "from .plugfx import *\n", "star_abs": "from plugfx import *\n",
                       "plugins": 'pytest_plugins = ["plugfx"]\n'}[c.get("onward", "none")]
-            with open(os.path.join(src_root, "plugmod.py"), "w") as fh:
-                fh.write(plug_src + ("\n\n" + onward if onward else ""))
             if onward:
                 with open(os.path.join(src_root, "plugfx.py"), "w") as fh:
                     fh.write("import pytest\n\n\n@pytest.fixture\ndef imp_fx():\n    return 1\n")
+        if c["target"] == "module":
+            with open(os.path.join(src_root, "plugmod.py"), "w") as fh:
+                fh.write(plug_src + ("\n\n" + onward if onward else ""))
         elif c["target"] == "package":
             os.makedirs(os.path.join(src_root, "plugpkg"), exist_ok=True)
             with open(os.path.join(src_root, "plugpkg", "__init__.py"), "w") as fh:
-                fh.write(plug_src)
+                # with an onward edge the package's __init__ only re-exports: no fixture of its own
+                fh.write(onward if onward else plug_src)
+            if onward:
+                with open(os.path.join(src_root, "plugpkg", "core.py"), "w") as fh:
+                    fh.write(plug_src)
             with open(os.path.join(src_root, "plugpkg", "sub.py"), "w") as fh:
                 fh.write(sub_src)
         ops = [{"op": "scan", "root": ws}, {"op": "snapshot", "full": True}, {"op": "unused"},
